@@ -14,7 +14,7 @@ import (
 func init() {
 	register(&Spec{
 		ID: "C20",
-		Explanation: "Decides accessor conformance (ORIGIN terms + dominance): Exists/String/MustString return Get's results; Int/Uint/Bool/Float return, on the found edge, the result pair of strconv.ParseInt(s,10,64)/ParseUint(s,10,64)/ParseBool(s)/ParseFloat(s,64) applied to the text Get returned, and (zero, ErrParamNotExists()) otherwise; each MustX calls the same strconv function with the same constants as X and returns the parsed value exactly on found && err == nil, its default otherwise; Count is len(params); Get is the comma-ok lookup; Set allocates on nil and stores under the given key on every path; Delete deletes the given key; Range ranges the map calling f(k, v); R2 a context obtained from the pool starts empty (= C07.R3 b, c). " +
+		Explanation: "Decides accessor conformance (ORIGIN terms + dominance): Exists/String/MustString return Get's results; Int/Uint/Bool/Float return, on the found edge, the result pair of strconv.ParseInt(s,10,64)/ParseUint(s,10,64)/ParseBool(s)/ParseFloat(s,64) applied to the text Get returned, and (zero, ErrParamNotExists()) otherwise; each MustX calls the same strconv function with the same constants as X and returns the parsed value exactly on found && err == nil, its default otherwise; Count is len(params); Get is the comma-ok lookup; Set allocates on nil and stores under the given key on every path; Delete deletes the given key; Range ranges the map calling f(k, v); R2 a context obtained from the pool starts empty and nothing touches it once it is back in the pool (= C07.R3 b, c, e). " +
 			"Not decided: strconv itself.",
 		Assumptions: commonAssumptions,
 		Run: func(c *Ctx) {
@@ -324,7 +324,7 @@ func rulePoolStartsEmpty(c *Ctx, rule string) {
 	rulePool(cc, "X")
 	c.R.Rule(c.R.Property+"."+rule, 5, "a context obtained from the pool always starts empty")
 	for _, o := range sub.Obls {
-		if strings.HasSuffix(o.Rule, ".Xb") || strings.HasSuffix(o.Rule, ".Xc") {
+		if strings.HasSuffix(o.Rule, ".Xb") || strings.HasSuffix(o.Rule, ".Xc") || strings.HasSuffix(o.Rule, ".Xe") {
 			c.R.Add(rule, o.Func, o.Construct, o.At, o.OK, o.Msg)
 		}
 	}
